@@ -510,6 +510,21 @@ impl Check for C16 {
                     other => return fail("find-index-none", format!("find_derivation_index_for_spk did not find the spk of index {} in 0..8: {:?}", index, other.map(|o| o.map(|x| x.0)))),
                 }
             }
+            // a search range that does not start at 0: the reported index is the derivation
+            // index, and deriving at it gives the spk again
+            if wild_mode == 1 && index >= 1 && index < 0x7fff_fff0 {
+                let lo = index - src.below(4.min(index as usize) + 1) as u32;
+                let hi = index + 1 + src.below(3) as u32;
+                match lib.find_derivation_index_for_spk(&secp, bitcoin::Script::from_bytes(&sc.spk), lo..hi) {
+                    Ok(Some((i, dd))) => {
+                        let again = lib.at_derivation_index(i).map(|d| d.script_pubkey());
+                        if i < lo || i >= hi || dd.script_pubkey().as_bytes() != &sc.spk[..] || again.as_ref().map(|x| x.as_bytes()).ok() != Some(&sc.spk[..]) {
+                            return fail("find-index-range", format!("find_derivation_index_for_spk(spk of index {}, {}..{}) reports index {}; deriving there gives {:?}", index, lo, hi, i, again.map(|x| x.to_hex_string())));
+                        }
+                    }
+                    other => return fail("find-index-none", format!("find_derivation_index_for_spk did not find the spk of index {} in {}..{}: {:?}", index, lo, hi, other.map(|o| o.map(|x| x.0)))),
+                }
+            }
             rep.nontrivial_by(&(&text, index));
             return Ok(());
         }
